@@ -297,9 +297,9 @@ func init() {
 				jobs = c15Jobs()
 			}
 			j := jobs[c.Idx]
-			n := 10
+			n := 60
 			if c.Tier == "thorough" {
-				n = 400
+				n = 2000
 			}
 			cj, _ := json.Marshal(tileCase{Set: j.name, BottomLeft: j.bl, ID: j.id})
 			c.Rec.SetCurrent(cj)
@@ -313,7 +313,7 @@ func init() {
 			}
 			judgeMatrix(c, tc.Set, tc.BottomLeft, tc.ID, 50)
 		},
-		Rule: "every tile matrix without variable widths of all 14 built-in sets, as is and re-expressed with a bottom-left corner of origin: 4 corner tiles, 8 border tiles and 10 (thorough 400) random tiles; oracle in 200-bit floats from origin, tile size and corner convention, x,y order taken from the document's orderedAxes (independent of the EPSG table): ToNative = exact top-left corner within 5e-10 + 4 ulp of the largest intermediate magnitude; 5 interior points per tile built from the exact bounds with margin max(1 % tile, 1e-7) map back to the tile; points 1 % outside each side map to no tile; MatrixBoundingBox = exact box and is spanned by the corners of tiles (0,0) and (w,h); distinct = (set, variant, matrix, tile)",
+		Rule: "every tile matrix without variable widths of all 14 built-in sets, as is and re-expressed with a bottom-left corner of origin: 4 corner tiles, 8 border tiles and 60 (thorough 2000) random tiles; oracle in 200-bit floats from origin, tile size and corner convention, x,y order taken from the document's orderedAxes (independent of the EPSG table): ToNative = exact top-left corner within 5e-10 + 4 ulp of the largest intermediate magnitude; 5 interior points per tile built from the exact bounds with margin max(1 % tile, 1e-7) map back to the tile; points 1 % outside each side map to no tile; MatrixBoundingBox = exact box and is spanned by the corners of tiles (0,0) and (w,h); distinct = (set, variant, matrix, tile)",
 		Required: func(string) []string {
 			return []string{"corner:bottomLeft", "corner:topLeft", "axes:swapped(lat/lon or y/x documents)", "axes:x,y", "interior_points", "outside_points", "bounding_boxes", "skipped:variable-widths"}
 		},
